@@ -217,13 +217,26 @@ func ReactScenarios() []History {
 		Ev{Name: "Obs"},
 		eb(1), eb(1), eb(1),
 		Ev{Name: "Withdraw", Signer: "o1"},
+		// p3 is its own owner and also owns pz: a withdrawal naming p3 itself is for that one provider
+		Ev{Name: "Bind", Signer: "p3", Svc: "s1", Prov: "p3", Deposit: 20, DShape: "ok", Pr: pr(2), Qos: 1},
+		Ev{Name: "Bind", Signer: "p3", Svc: "s1", Prov: "pz", Deposit: 20, DShape: "ok", Pr: pr(3), Qos: 1},
+		Ev{Name: "Call", Signer: "c1", Svc: "s1", Provs: []string{"p3", "pz"}, Cap: 10, Timeout: 2},
+		// a module context over two providers with threshold 2, narrowed to one provider while its batch is out
+		Ev{Name: "ModCreate", Signer: "c1", Svc: "s1", Provs: []string{"p3", "pz"}, Cap: 10, Timeout: 3, Rep: true, Freq: 3, Total: 3, Thr: 2},
+		eb(1),
+		Ev{Name: "Respond", Signer: "p3", Rid: rid(4, 1, 5, 0), Kind: "valid"},
+		Ev{Name: "Respond", Signer: "pz", Rid: rid(4, 1, 5, 1), Kind: "valid"},
+		Ev{Name: "Withdraw", Signer: "p3", Prov: "p3"},
+		Ev{Name: "Obs"},
+		Ev{Name: "Withdraw", Signer: "p3"},
+		Ev{Name: "ModUpdate", Signer: "c1", ID: 5, Provs: []string{"p3"}, Thr: 1},
 		Ev{Name: "PrepZeroHeight"},
 		Ev{Name: "Genesis"},
 		Ev{Name: "Restart"},
 		Ev{Name: "Bind", Signer: "c1", Svc: "s1", Prov: "c1", Deposit: 40, DShape: "ok", Pr: pr(2), Qos: 1}, // c1 becomes an owner on the new chain
 		Ev{Name: "Call", Signer: "c2", Svc: "s1", Provs: []string{"c1"}, Cap: 10, Timeout: 2},
 		eb(1),
-		Ev{Name: "Respond", Signer: "c1", Rid: rid(4, 1, 1, 0), Kind: "valid"},
+		Ev{Name: "Respond", Signer: "c1", Rid: rid(6, 1, 1, 0), Kind: "valid"},
 		Ev{Name: "Withdraw", Signer: "c1"}, // to the address it chose on the old chain
 	)
 	add("odds-and-ends-at-their-boundaries", smallParams(), map[string]int64{"c2": 8, "c1": 200, "p1": 100, "p3": 100}, ops...)
